@@ -113,19 +113,23 @@ class Ctx:
         if self._pool is None and self.jobs > 1:
             import multiprocessing as mp
 
-            mpc = mp.get_context("spawn")
-            self._pool = mpc.Pool(
-                self.jobs,
-                initializer=_worker_init,
-                initargs=(self.mod.ID,),
-                maxtasksperchild=getattr(self.mod, "MAX_TASKS_PER_CHILD", None),
-            )
+            from concurrent.futures import ProcessPoolExecutor
+
+            # an executor (not multiprocessing.Pool): a worker that dies (e.g. the process runs out of memory mappings inside
+            # one long item) breaks the executor loudly instead of leaving map() waiting for ever for the lost item
+            self._pool = ProcessPoolExecutor(self.jobs, mp_context=mp.get_context("spawn"), initializer=_worker_init,
+                                             initargs=(self.mod.ID,))
         return self._pool
 
     def close(self):
         if self._pool is not None:
-            self._pool.terminate()
-            self._pool.join()
+            procs = list(getattr(self._pool, "_processes", {}).values())
+            self._pool.shutdown(wait=False, cancel_futures=True)
+            for pr in procs:
+                try:
+                    pr.terminate()
+                except Exception:
+                    pass
             self._pool = None
 
     def map(self, fn_name: str, items, absorb: bool = True, chunksize: int = 1):
@@ -140,12 +144,54 @@ class Ctx:
             _worker_init_local(self.mod)
             it = (_worker_call(t) for t in tasks)
         else:
-            it = self.pool().imap(_worker_call, tasks, chunksize)
+            it = self._robust(tasks)
         for k, (item, res) in zip(order, it):
             out[k] = (item, res)
             if absorb:
                 self.absorb(item, res)
         return out
+
+    MAX_POOL_RESTARTS = 4
+
+    def _robust(self, tasks):
+        """Every task's result, in task order.  If a worker process dies the executor is rebuilt and the unfinished tasks
+        are submitted again (at most MAX_POOL_RESTARTS times); what is still unfinished then is reported as a harness error."""
+        from concurrent.futures import wait, FIRST_EXCEPTION
+        from concurrent.futures.process import BrokenProcessPool
+
+        results = [None] * len(tasks)
+        pending = list(range(len(tasks)))
+        restarts = 0
+        while pending:
+            ex = self.pool()
+            futs = {j: ex.submit(_worker_call, tasks[j]) for j in pending}
+            wait(list(futs.values()), return_when=FIRST_EXCEPTION)
+            broken = False
+            for j, f in futs.items():
+                if f.done() and not f.cancelled():
+                    try:
+                        results[j] = f.result()
+                    except BrokenProcessPool:
+                        broken = True
+                    except BaseException as e:  # pickling problems etc.
+                        results[j] = (tasks[j][1], {"error": f"{type(e).__name__}: {e}"})
+                elif not broken:
+                    try:
+                        results[j] = f.result()
+                    except BrokenProcessPool:
+                        broken = True
+                    except BaseException as e:
+                        results[j] = (tasks[j][1], {"error": f"{type(e).__name__}: {e}"})
+            pending = [j for j in pending if results[j] is None]
+            if pending:
+                self.close()
+                restarts += 1
+                self.notes["worker_pool_restarts"] = restarts
+                if restarts > self.MAX_POOL_RESTARTS:
+                    for j in pending:
+                        results[j] = (tasks[j][1], {"error": "worker process died repeatedly while this item was in flight or queued"})
+                    pending = []
+        return iter(results)
 
     def absorb(self, item, res: dict):
         if "error" in res:
